@@ -70,6 +70,22 @@ theorem write_set_lan_config_param (ch sel : Nat) (data : List Nat) (s : BmcStat
 theorem write_set_ip_address (ip : List Nat) (ch : Nat) (s : BmcState) (h : ch < 16) (hb : Bytes ip) :
     (api_set_ip_address ip ch).run s = (set_lan_param ch 3 ip s, .ok .unit) :=
   set_ip_address_refines ip ch s h hb
+/-- set_ip_address on the TEXT of its argument (`ip_address_to_data`: `map(int, text.split('.'))`): a dotted spelling of
+the octets `ip` in which the i-th octet carries `pads[i]` leading zeros ('192.168.001.010', '010.020.030.040',
+'08.09.0.255') denotes `ip` - every octet is read as a DECIMAL numeral whatever it begins with - and that is what the
+BMC stores.  (Signs and blanks around an octet, which `int()` accepts too, are in the model `octetOfText` and
+compared with the code on every generated spelling; the theorem is about the zero-padded dotted-decimal form.) -/
+theorem write_set_ip_address_text (pads ip : List Nat) (ch : Nat) (s : BmcState) (h : ch < 16) (hb : Bytes ip)
+    (hl : pads.length = ip.length) (hne : ip ≠ []) :
+    (api_set_ip_address_text (dotted pads ip) ch).run s = (set_lan_param ch 3 ip s, .ok .unit) :=
+  set_ip_address_text_refines pads ip ch s h hb hl hne
+/-- the conversion alone: decimal per octet, leading zeros ignored -/
+theorem table_ip_text_decimal (pads ip : List Nat) (hl : pads.length = ip.length) (hne : ip ≠ []) :
+    ipAddressToData (dotted pads ip) = .ok ip :=
+  ipAddressToData_dotted pads ip hl hne
+example : dotted [0, 0, 2, 1] [192, 168, 1, 10] = "192.168.001.010".toList := by decide
+example : dotted [1, 1, 0, 0] [8, 9, 0, 255] = "08.09.0.255".toList := by decide
+example : ipAddressToData " +10.020.3 .4\n".toList = .ok [10, 20, 3, 4] := by decide
 /-- "static" ↦ 1, "dhcp" ↦ 2 -/
 theorem write_set_ip_source (code ch : Nat) (s : BmcState) (h : ch < 16) (hc : code = 1 ∨ code = 2) :
     (api_set_ip_source code ch).run s = (set_lan_param ch 4 [code] s, .ok .unit) :=
